@@ -94,7 +94,10 @@ def failed_rule(ctx):
             # count only on success
             te = try_edges(b, abb)
             cnt = field_assigns(b, 'n_elements_in_block')
-            cnt_ok = te is not None and bool(cnt) and all(b.dominates(te[0], bb) for bb, _ in cnt)
+            in_closures = [1 for cb in f.closures_of(b) for _ in field_assigns(cb, 'n_elements_in_block') + field_mut_borrows(cb, 'n_elements_in_block')]
+            # (a closure capturing the counter mutably shows up as a `&mut self.count` taken where the closure is built)
+            cmb = field_mut_borrows(b, 'n_elements_in_block')
+            cnt_ok = te is not None and bool(cnt) and all(b.dominates(te[0], bb) for bb, _ in cnt + cmb) and not in_closures
             if nm == 'serialize':
                 inc = False
                 for bb, s in cnt:
